@@ -20,12 +20,14 @@ structure St where
   readers : List Nat := []
   writer : Option Nat := none
   calls : List Pending := []
+  intrs : List Nat := []            -- threads a thread_interrupt() was issued to and that have not returned from a lock call since
   deriving Repr
 
 inductive Ev where
   | call (t : Nat) (write : Bool) (to : Option Nat) (try_ : Bool)
   | ret (t : Nat) (ok : Bool)
   | unlock (t : Nat)
+  | interrupt (t : Nat)
   | overlap
   | tick (now : Nat)
   | quiescent
@@ -56,8 +58,10 @@ def pre (s : St) (e : Ev) : Option String :=
           (if p.write then (if free s then some "try_lock(write) failed on a free lock" else none)
            else (if s.writer.isNone then some "try_lock(read) failed although no writer holds the lock" else none))
         else if timedOut p.callAt p.to s.now then none
-        else some "lock() failed before its timeout"
+        else if s.intrs.contains t then none
+        else some "lock() failed before its timeout and without an interrupt"
   | .unlock t => if holds s t then none else some "unlock by a thread that does not hold the lock"
+  | .interrupt _ => none
   | .overlap => some "a writer was inside together with another holder"
   | .tick n => if n < s.now then some "clock went backwards" else none
   | .quiescent =>
@@ -71,10 +75,11 @@ def eff (s : St) (e : Ev) : St :=
     match s.calls.find? (·.t == t) with
     | none => s
     | some p =>
-      let s1 := { s with calls := s.calls.filter (·.t != t) }
+      let s1 := { s with calls := s.calls.filter (·.t != t), intrs := s.intrs.erase t }
       if ok then (if p.write then { s1 with writer := some t } else { s1 with readers := t :: s.readers })
       else s1
   | .unlock t => if s.writer == some t then { s with writer := none } else { s with readers := s.readers.erase t }
+  | .interrupt t => { s with intrs := t :: s.intrs }
   | .overlap => s
   | .tick n => { s with now := n }
   | .quiescent => s
